@@ -1059,6 +1059,8 @@ class ArgumentParser(ParserDeprecations, ActionsContainer, ArgumentLinking, argp
     def error(self, message: str, ex: Optional[Exception] = None) -> NoReturn:
         """Logs error message if a logger is set and exits or raises an ArgumentError."""
         self._logger.error(message)
+        if hasattr(self, "print_config"):
+            delattr(self, "print_config")  # a failed parse must not leave a pending --print_config request
         if callable(self._error_handler):
             self._error_handler(self, message)
         if not self.exit_on_error:
